@@ -1,4 +1,5 @@
 import Percival.Proofs.Http
+import Percival.Proofs.HttpSamples
 /-!
 # C08 — the HTTP client is memory-safe and terminates cleanly on any server byte stream
 
@@ -79,19 +80,16 @@ theorem run_terminates_with_one_callback {σ : Type} (ovf : Bool → Nat → Int
   | none => trivial
   | some r => exact h2
 
-/-- "HTTP/1.1 200 OK", `Transfer-Encoding: chunked`, one chunk "hi", last chunk -/
-def sample : Bytes :=
-  [72, 84, 84, 80, 47, 49, 46, 49, 32, 50, 48, 48, 32, 79, 75, 13, 10, 84, 114, 97, 110, 115, 102, 101, 114, 45, 69, 110, 99, 111, 100, 105, 110, 103, 58, 32, 99, 104, 117, 110, 107, 101, 100, 13, 10, 13, 10, 50, 13, 10, 104, 105, 13, 10, 48, 13, 10, 13, 10]
 
 /-- a concrete run, delivered one byte at a time (every wait gets exactly what it asked for) -/
 example :
-    (match runAll (fun _ _ => 0) (fun (_ : Unit) _ _ => ((), Arrival.more 0)) () false 2 sample with
+    (match runAll (fun _ _ => 0) (fun (_ : Unit) _ _ => ((), Arrival.more 0)) () false 2 Percival.Proofs.HttpSamples.sampleStream with
      | .callback (some r) _ => decide (r.status = 200) && r.body == some [104, 105]
      | _ => false) = true := by decide +kernel
 
 /-- the same response with limit 1, delivered at once: reported as too big, without a buffer -/
 example :
-    (match runAll (fun _ _ => 0) (fun (_ : Unit) _ _ => ((), Arrival.more 1000)) () false 1 sample with
+    (match runAll (fun _ _ => 0) (fun (_ : Unit) _ _ => ((), Arrival.more 1000)) () false 1 Percival.Proofs.HttpSamples.sampleStream with
      | .callback (some r) _ => decide (r.status = 200) && r.body == none
      | _ => false) = true := by decide +kernel
 
